@@ -419,3 +419,20 @@ def wf_arglist(l):
 def wf_kwlist(l):
     import ast as _a
     return all(isinstance(x, _a.keyword) and (x.arg is None or isinstance(x.arg, str)) and wf(x.value) for x in l)
+
+
+def drop(l, n):
+    return list(l)[max(n, 0):]
+
+
+def is_dataclass_value(v):
+    import dataclasses
+    return dataclasses.is_dataclass(v)
+
+
+def has_fields_attr(v):
+    return hasattr(v, "_fields")
+
+
+def fields_attr(v):
+    return list(v._fields)
